@@ -115,6 +115,14 @@ def main():
         set_debug_logging(idx % 7 == 3)
         if idx % 7 == 3:
             ctx.counters['cases_at_debug_log_level'] += 1
+        # numpy's print options are process state as well (str() of an array
+        # is abbreviated beyond `threshold` elements)
+        import numpy as _np
+        if idx % 7 == 5:
+            _np.set_printoptions(threshold=6, edgeitems=1, precision=2)
+            ctx.counters['cases_with_terse_print_options'] += 1
+        else:
+            _np.set_printoptions(threshold=1000, edgeitems=3, precision=8)
         # per-case watchdog (a C-level thread of faulthandler, so it fires
         # even when the interpreter is stuck in native code or in a
         # deadlocked allocator after heap corruption): the process exits,
